@@ -363,13 +363,14 @@ def check(ctx):
             while isinstance(ttest, ast.UnaryOp) and isinstance(ttest.op, ast.Not):
                 ttest, positive = ttest.operand, not positive
             ct = canon(ttest)
-            if "OPT[tol_noise]" not in ct or not ct.startswith("(OPT[tol_noise] < np.abs("):
+            if "OPT[tol_noise]" not in ct or not (ct.startswith("(OPT[tol_noise] < np.abs(") or ct.startswith("(OPT[tol_noise] < abs(")):
                 from .common import deref_expr as _dx5
 
                 dt = _dx5(prog, mesh, ttest)  # the gap / the comparison kept in a local
                 while isinstance(dt, ast.UnaryOp) and isinstance(dt.op, ast.Not):
                     dt, positive = dt.operand, not positive
                 ct = canon(dt)
+            ct = ct.replace("< abs((", "< np.abs((").replace("< np.absolute((", "< np.abs((").replace("< np.fabs((", "< np.abs((")  # the builtin on scalars
             want = {f"(OPT[tol_noise] < np.abs(({y1} - {y2})))", f"(OPT[tol_noise] < np.abs(({y2} - {y1})))"}
             branch = tnode.body if positive else tnode.orelse
             sets = [s for s in branch if isinstance(s, ast.Assign) and state_key(s.targets[0]) == ("OS", "uncertainty_handling_level") and const_num(s.value) == 1]
